@@ -245,6 +245,12 @@ def t_contains(sub, t):
         return True
     if all(isinstance(p, str) for p in t.parts):
         return False
+    if len(t.parts) == 1 and isinstance(t.parts[0], Hole) and t.parts[0].kind == "ident" and sub:
+        # an identifier has word characters only; a dotted name (props dotted=True) also "."
+        h = t.parts[0]
+        odd = [ch for ch in sub if not (ch.isalnum() or ch == "_")]
+        if odd and not (h.props.get("dotted") and all(ch == "." for ch in odd) and ".." not in sub):
+            return False
     return mk_bool(z3.Bool(f"contains:{sub!r}:{_short(t)}"))
 
 
